@@ -15,8 +15,12 @@ class Accumulate(Transform[Gradients, EmptyTensorDict]):
         Accumulates gradients with respect to keys in their ``.grad`` field.
         """
 
+        # Check all keys before accumulating anything, so that no .grad field is modified if one of
+        # the keys does not expect grad.
         for key in gradients.keys():
             _check_expects_grad(key)
+
+        for key in gradients.keys():
             if hasattr(key, "grad") and key.grad is not None:
                 key.grad += gradients[key]
             else:
